@@ -1,0 +1,13 @@
+//go:build verif
+
+package gsfa
+
+// verifHook is installed by verification harnesses (build tag `verif`) to observe and gate the
+// interaction points of the writer's two goroutines. It is nil unless a test sets it.
+var verifHook func(point string)
+
+func vh(point string) {
+	if h := verifHook; h != nil {
+		h(point)
+	}
+}
